@@ -105,6 +105,9 @@ void runLife(const Scn &scn, Out &out)
         if (p[0] == "new") { if (!started && server) { started = true; sp->process(tcp); } }
         else if (p[0] == "feed") { if (tcp) tcp->feed(unhx(p[1])); }
         else if (p[0] == "turn") turn();
+        // deferred deletions are delivered before anything else the event loop has pending (a connection attempt
+        // that completes, data that arrived): both orders are possible in a real event loop
+        else if (p[0] == "reap") QCoreApplication::sendPostedEvents(nullptr, QEvent::DeferredDelete);
         else if (p[0] == "ackall") { if (tcp) tcp->ackAll(); }
         else if (p[0] == "ack") { if (tcp) tcp->ack(p[1].toLongLong()); }
         else if (p[0] == "peerclose") { if (tcp) tcp->peerClose(); }
